@@ -164,22 +164,27 @@ def _mask_case(args):
         px = np.array([30.0, 90.0, 150.0])
         py = np.array([0.02, 0.08, 0.15])
         for kde_type in ("histogram", "gauss", "multivariate"):
-            for scale in ("linear", "log"):
+            for scale in ("linear", "log", "linear/log", "log/linear"):
+                xsc, ysc = (scale.split("/") if "/" in scale
+                            else (scale, scale))
+                if "/" in scale and kde_type == "multivariate" \
+                        and bits % 3:
+                    continue       # mixed scales: every third mask
                 cnt += 1
                 t = {"kde": kde_type, "scale": scale}
                 try:
                     a = call(ds.get_kde_scatter, kde_type=kde_type,
-                             xscale=scale, yscale=scale)
+                             xscale=xsc, yscale=ysc)
                     b = call(ref.get_kde_scatter, kde_type=kde_type,
-                             xscale=scale, yscale=scale)
+                             xscale=xsc, yscale=ysc)
                     if not eq(a, b):
                         bad("dclab.rtdc_dataset.core:RTDCBase."
                             "get_kde_scatter", "excluded-events-influence",
                             f"{kde_type}/{scale}: {a} vs {b}", **t)
                     a2 = call(ds.get_kde_scatter, kde_type=kde_type,
-                              xscale=scale, yscale=scale, positions=(px, py))
+                              xscale=xsc, yscale=ysc, positions=(px, py))
                     b2 = call(ref.get_kde_scatter, kde_type=kde_type,
-                              xscale=scale, yscale=scale,
+                              xscale=xsc, yscale=ysc,
                               positions=(px, py))
                     if not eq(a2, b2):
                         bad("dclab.rtdc_dataset.core:RTDCBase."
@@ -190,11 +195,11 @@ def _mask_case(args):
                     xs, ys = x[sel], y[sel]
                     ok = np.isfinite(xs) & np.isfinite(ys)
                     xs, ys = xs[ok], ys[ok]
-                    if scale == "log":
-                        xs, ys, qx, qy = np.log(xs), np.log(ys), np.log(
-                            px), np.log(py)
-                    else:
-                        qx, qy = px, py
+                    qx, qy = px, py
+                    if xsc == "log":
+                        xs, qx = np.log(xs), np.log(px)
+                    if ysc == "log":
+                        ys, qy = np.log(ys), np.log(py)
                     if kde_type in ("gauss", "multivariate") and len(
                             xs) >= 4 and np.ptp(xs) > 0 and np.ptp(ys) > 0 \
                             and not isinstance(a2, Raised):
@@ -210,9 +215,9 @@ def _mask_case(args):
                                 f"{scale}: {a2} vs reference {r}", **t)
                     if kde_type == "histogram" or bits % 5 == 0:
                         ca = call(ds.get_kde_contour, kde_type=kde_type,
-                                  xscale=scale, yscale=scale)
+                                  xscale=xsc, yscale=ysc)
                         cb = call(ref.get_kde_contour, kde_type=kde_type,
-                                  xscale=scale, yscale=scale)
+                                  xscale=xsc, yscale=ysc)
                         if not eq(ca, cb):
                             bad("dclab.rtdc_dataset.core:RTDCBase."
                                 "get_kde_contour",
